@@ -112,7 +112,9 @@ class Cylinder(SampleShape):
         u = sc.cross(sc.vector([0, 0, 1]), self.symmetry_line)
         un = sc.norm(u)
         if un >= 1e-10:
-            u *= sc.asin(un) / un
+            # atan2 gives the correct angle also for axes with a negative z-component
+            cos = sc.dot(sc.vector([0, 0, 1]), self.symmetry_line)
+            u *= sc.atan2(y=un, x=cos) / un
             points = sc.spatial.rotations_from_rotvecs(u) * points
 
         # By default the cylinder quadrature center is at the origin.
